@@ -3,6 +3,7 @@ import itertools
 import os
 import shutil
 import warnings
+from xml.etree import ElementTree as ET
 
 from hypothesis import strategies as st
 
@@ -25,7 +26,7 @@ RULE = (
     "key order != ID order).  Oracle (metamorphic): [r.message_id for r in mc.mos_readers] is "
     "ascending numerically and identical for every permutation and constructor; str(mc) after a "
     "non-strict merge is identical across permutations and constructors; sorted() of the MosFile "
-    "objects is ascending by integer message ID.  Non-trivial = >= 3 messages, IDs of >= 2 digit "
+    "objects - of one running order, and of three - is ascending by integer message ID.  Non-trivial = >= 3 messages, IDs of >= 2 digit "
     "counts, permutation != sorted order.")
 ASSUMPTIONS = ['message IDs are distinct integers']
 MANDATORY = ['padded-message-id', 'constructor:strings', 'constructor:files', 'constructor:s3', 'lexical!=numeric',
@@ -98,6 +99,19 @@ def judge_case(case):
             if got != allm:
                 fails.append(Failure(PROP, 'C10|sorted-mosfiles-not-numeric',
                                      f'sorted(MosFile objects) gives {got}, expected {allm}', allm, got))
+            # the same messages addressed to three running orders (a directory of several)
+            objs = []
+            for n, i in enumerate(case['perms'][-1]):
+                root = ET.fromstring(docs[i])
+                for rid in root.iter('roID'):
+                    rid.text = ('ZZ-other', rid.text, 'AA-other')[n % 3]
+                    break
+                objs.append(MosFile.from_string(ET.tostring(root, encoding='unicode')))
+            got = [o.message_id for o in sorted(objs)]
+            if got != allm or min(objs).message_id != allm[0] or max(objs).message_id != allm[-1]:
+                fails.append(Failure(PROP, 'C10|sorted-mosfiles-of-several-running-orders-not-numeric',
+                                     f'sorted(MosFile objects of three running orders) gives {got}, '
+                                     f'expected {allm}', allm, got))
     finally:
         shutil.rmtree(workdir, ignore_errors=True)
     return fails
